@@ -72,9 +72,16 @@ APathOK(c, M, p) ==       \* p: sequence of <<i, j>> series indices
 
 CellsOf(p) == {p[q] : q \in 1..Len(p)}
 \* matches[m] = [path, restart]: a match never reuses a cell consumed since the last restart
+\* "traced from a maximum": while nothing is masked (first match of an object or of a restarting call) and no
+\* candidate can be discarded for its length (minlen <= 1), the match ends in a cell holding the largest value
+MaxCell(c, M) == SetMax({M[i + 1][j + 1] : i \in 1..AL1(c), j \in 1..AL2(c)})
+FreshAtMaximum(c, M, mt) ==
+    (mt.fresh /\ mt.minlen <= 1 /\ APathOK(c, M, mt.path))
+        => LET e == mt.path[Len(mt.path)] IN M[e[1] + 2][e[2] + 2] = MaxCell(c, M)
 HistoryOK(c, M, matches) ==
     \A m \in 1..Len(matches) :
        /\ APathOK(c, M, matches[m].path)
+       /\ FreshAtMaximum(c, M, matches[m])
        /\ \A e \in 1..(m - 1) :
             (\A z \in (e + 1)..m : ~matches[z].restart) => CellsOf(matches[e].path) \cap CellsOf(matches[m].path) = {}
 =============================================================================
